@@ -470,3 +470,91 @@ func gradientCopyCase(cs *fw.Case) {
 		cs.Violation(sig(monitor, routine, "any", "mutate-source:derivative-write", "shared-state"), "after writing the derivatives of the source scalar the copy changed: "+d, map[string]any{"gradient": g0.Str})
 	}
 }
+
+/* constant sparse vectors: conversion from a mutable vector and their clones
+ * -------------------------------------------------------------------------- */
+
+var sparseConstCtor = map[string]func(ad.ConstVector) ad.ConstVector{
+	"Int8":    func(v ad.ConstVector) ad.ConstVector { return ad.AsSparseConstInt8Vector(v) },
+	"Int16":   func(v ad.ConstVector) ad.ConstVector { return ad.AsSparseConstInt16Vector(v) },
+	"Int32":   func(v ad.ConstVector) ad.ConstVector { return ad.AsSparseConstInt32Vector(v) },
+	"Int64":   func(v ad.ConstVector) ad.ConstVector { return ad.AsSparseConstInt64Vector(v) },
+	"Int":     func(v ad.ConstVector) ad.ConstVector { return ad.AsSparseConstIntVector(v) },
+	"Float32": func(v ad.ConstVector) ad.ConstVector { return ad.AsSparseConstFloat32Vector(v) },
+	"Float64": func(v ad.ConstVector) ad.ConstVector { return ad.AsSparseConstFloat64Vector(v) },
+}
+
+// valuesOf reads a constant vector through the typed accessors (ConstAt of the
+// integer instantiations answers with a ConstFloat64).
+func valuesOf(v ad.ConstVector) string {
+	var b strings.Builder
+	fmt.Fprintf(&b, "%d:", v.Dim())
+	for i := 0; i < v.Dim(); i++ {
+		fmt.Fprintf(&b, "%d/%v;", v.Int64At(i), v.Float64At(i))
+	}
+	for it := v.ConstIterator(); it.Ok(); it.Next() {
+		fmt.Fprintf(&b, "|%d", it.Index())
+	}
+	return b.String()
+}
+
+func sparseConstCopyCase(cs *fw.Case) {
+	const monitor = "copy.sparse-const"
+	r := cs.R
+	t := gen.Types[cs.Index%7]
+	storage := storages[(cs.Index/7)%2]
+	method := []string{"AsSparseConstVector", "Clone", "CloneConstVector", "ConstSlice"}[(cs.Index/14)%4]
+	src := gen.NullVector(t, storage, r.Range(1, 9))
+	fillV(src, t, r, pzOf(storage), false)
+	var cv, cp ad.ConstVector
+	var want string
+	if p := fw.Call(func() {
+		cv = sparseConstCtor[t.Name](src)
+		cp = cv
+		want = valuesOf(src)
+		switch method {
+		case "Clone":
+			c, _ := callClone(cv)
+			cp = c.(ad.ConstVector)
+		case "CloneConstVector":
+			cp = cv.CloneConstVector()
+		case "ConstSlice":
+			i, j := 0, src.Dim()
+			if src.Dim() > 1 {
+				i, j = subrange(src.Dim(), r)
+			}
+			cp = cv.ConstSlice(i, j)
+			want = valuesOf(src.Slice(i, j))
+		}
+	}); p != nil {
+		cs.Skip("construction-panics")
+		cs.Cover(monitor + ":construction-panics:" + method)
+		return
+	}
+	routine := typeName(cv) + "." + method
+	cs.Cover(monitor + ":" + routine)
+	cs.Nontrivial(routine, want)
+	cs.Sample(map[string]any{"routine": routine, "source": safeString(src)})
+	w := map[string]any{"routine": routine, "source": safeString(src)}
+	got := ""
+	if p := fw.Call(func() { got = valuesOf(cp) }); p != nil {
+		cs.Violation(sig(monitor, routine, "any", "none", "not-equal"), "reading the copy panics: "+p.Msg+" @ "+p.Frame, w)
+		return
+	}
+	if got != want {
+		cs.Violation(sig(monitor, routine, "any", "none", "not-equal"), fmt.Sprintf("copy reads %s, source %s", got, want), w)
+		return
+	}
+	// mutate the mutable source: the constant copies must not move
+	for k := r.Range(2, 4); k > 0; k-- {
+		mu := vecMuts[r.Intn(len(vecMuts))]
+		fw.Call(func() { mu.F(src, t, r) })
+		now := ""
+		fw.Call(func() { now = valuesOf(cp) })
+		if now != got {
+			w["mutation"] = mu.Name
+			cs.Violation(sig(monitor, routine, "any", "mutate-source:"+mutClass(mu.Name), "shared-state"), fmt.Sprintf("after %s on the source the constant copy reads %s instead of %s", mu.Name, now, got), w)
+			return
+		}
+	}
+}
